@@ -36,9 +36,8 @@ PARTIAL = [
     "create_rpc_connection / bind / request mean something only with the call's server and credentials, the port tr_port, the model's contexts and REQUEST PDUs octet-equal to "
     "tr_ept_request / tr_getkey_request, so the ties carry request fidelity of the source (two mutants of the regenerated term are refused: C17_flow_mutants_refused), and C17_flow_get_key_sync_async states that the two regenerated functions return "
     "the same envelope or the same error whenever the two receive loops deliver the same PDUs (C14); request() of the two clients is the same term (C17_flow_request_twin). What remains "
-    "partial: SyncRpcClient.bind is tied to the async body only syntactically (C15_flow_bind_twin: `self._auth.step(..)` mutates an attribute of a local, which the single-owner "
-    "semantics cannot express on the sync side), and RpcClient._prepare_pdu patches frag_len / auth_len through a memoryview alias (no honest tie: kernels k_fraglen_patch + "
-    "correspondence framing.request cover it)",
+    "partial: RpcClient._prepare_pdu patches frag_len / auth_len through a memoryview alias and is refused by the flow translator (no tie: kernels k_fraglen_patch / k_wrap_trailer_len + "
+    "correspondence framing.request cover it); SyncRpcClient.bind is now tied semantically as well (C15_flow_sync_bind)",
     "C17_result is proved as stated in the brief, and its design-level extension `... and that envelope decrypts the blob / the blob produced from it decrypts` is now "
     "proved (Proofs/C17Compose.v) as the composition with C01-C03 over the same models: C17_dc_envelope (a successful conversation with a script marshalling e returns e), "
     "C17_unprotect_with_envelope (a protected blob names exactly the requested (SD, rkid, L0, L1, L2) and EVERY envelope conforming to MS-GKDI 2.2.4 for the root key -- env_ok, "
